@@ -125,10 +125,35 @@ def make_layer(ld):
                                              "int32": np.int32,
                                              "bool": np.bool_}[mdt])
   cls = _layer_class(ld["cls"])
-  if ld["cls"] == "QBidirectional":
+  if "name" in ld:
+    kw["name"] = ld["name"]
+  if "cells" in ld:
+    # generic Keras RNN layer around cell objects: one cell, or a list of
+    # cells (Keras wraps a list into StackedRNNCells)
+    cells = [make_layer(cd) for cd in ld["cells"]]
+    as_list = kw.pop("as_list", False) or len(cells) > 1
+    return cls(cells if as_list else cells[0], **kw)
+  if "inner" in ld:      # QBidirectional / Bidirectional / TimeDistributed
     inner = make_layer(ld["inner"])
-    return cls(inner, name=ld["name"], **kw)
-  return cls(name=ld["name"], **kw)
+    return cls(inner, **kw)
+  return cls(**kw)
+
+
+def sub_descs(ld):
+  """Layer / cell descriptions nested directly inside a layer description."""
+  out = []
+  if "inner" in ld:
+    out.append(ld["inner"])
+  out.extend(ld.get("cells", []))
+  return out
+
+
+def nested_descs(ld):
+  """ld and everything nested in it, outermost first."""
+  out = [ld]
+  for d in sub_descs(ld):
+    out.extend(nested_descs(d))
+  return out
 
 
 def build_model(desc, set_weights=True):
@@ -180,7 +205,98 @@ def assign_weights(model, desc):
     # constructed tensors stored in the description override the drawn ones
     for idx, val in desc.get("weights", {}).get(layer.name, {}).items():
       new[int(idx)] = np.array(val, dtype=F32).reshape(new[int(idx)].shape)
+    # degenerate whole-tensor fills (optional key "wfill", see fill_tensor):
+    # applied after the draw, so the random stream of the other tensors of a
+    # description does not depend on it
+    fills = desc.get("wfill", {})
+    fl = dict(fills.get("*", {}))
+    fl.update(fills.get(layer.name, {}))
+    for k, (nm, c) in enumerate(zip(names, cur)):
+      short = nm.split("/")[-1].split(":")[0]
+      if short in fl:
+        new[k] = fill_tensor(fl[short], c, new[k])
     layer.set_weights(new)
+
+
+# whole-tensor states a weight can be in without any training step: "init" =
+# the value the layer's initializer gave it (an untrained parameter: beta 0,
+# moving mean 0, gamma 1, variance 1, bias 0), all zeros, all ones, one
+# constant, a single non-zero element.
+WFILLS = ("init", "zeros", "ones", "const:0.5", "const:-0.25", "const:3.0",
+          "one_hot")
+
+
+def fill_tensor(fill, initial, drawn):
+  """Tensor for a fill name; `initial` = initializer value, `drawn` = the
+  random tensor the description would otherwise carry."""
+  if fill == "init":
+    return np.array(initial, dtype=F32)
+  if fill == "zeros":
+    return np.zeros(initial.shape, dtype=F32)
+  if fill == "ones":
+    return np.ones(initial.shape, dtype=F32)
+  if fill.startswith("const:"):
+    return np.full(initial.shape, float(fill.split(":")[1]), dtype=F32)
+  if fill == "one_hot":
+    w = np.zeros(initial.shape, dtype=F32).reshape(-1)
+    if w.size:
+      w[0] = np.asarray(drawn, dtype=F32).reshape(-1)[0]
+    return w.reshape(initial.shape)
+  raise ValueError("unknown fill %r" % (fill,))
+
+
+def wfill_strategy(desc):
+  """Strategy for the optional "wfill" value of a description: {layer name |
+  "*": {weight variable name: fill}}.  Four shapes of degenerate state: the
+  whole model as built (every tensor "init": a freshly constructed, untrained
+  model) or with its zero-start parameters zero, one layer as built, the
+  statistics / affine part of the batch-norm layers as built, or individual
+  tensors of individual layers with any fill of WFILLS."""
+  st = _st()
+  wl = []
+  for ld in desc["layers"]:
+    slots = WEIGHT_SLOTS.get(ld["cls"])
+    if slots:
+      wl.append((ld["name"], [w for w, _ in slots]))
+  allnames = sorted({w for _, ws in wl for w in ws})
+
+  @st.composite
+  def _s(draw):
+    if not wl:
+      return {}
+    shape = draw(st.sampled_from(["tensors", "tensors", "layer", "model",
+                                  "bn_stats"]))
+    bns = [ln for ln, ws in wl if "moving_mean" in ws]
+    if shape == "bn_stats" and bns:
+      # batch-norms that have not accumulated statistics / untrained affine
+      # part: every batch-norm layer, or one of them
+      which = bns if draw(st.booleans()) else [draw(st.sampled_from(bns))]
+      part = draw(st.sampled_from([["moving_mean", "moving_variance"],
+                                   ["beta", "gamma"], ["moving_mean"], ["beta"],
+                                   ["beta", "moving_mean"]]))
+      return {ln: {w: "init" for w in part} for ln in which}
+    if shape == "model":
+      f = draw(st.sampled_from(["init", "init", "zeros"]))
+      names = allnames if f == "init" else [
+          n for n in allnames if n in ("bias", "beta", "moving_mean")]
+      return {"*": {n: f for n in names}}
+    if shape == "layer":
+      ln, ws = draw(st.sampled_from(wl))
+      return {ln: {w: "init" for w in ws}}
+    out = {}
+    for ln, ws in wl:
+      for w in ws:
+        # parameters that start at zero / one in a real model are the ones
+        # most often left degenerate
+        often = w in ("bias", "beta", "moving_mean", "gamma", "moving_variance")
+        if draw(st.integers(0, 2 if often else 7)) == 0:
+          f = draw(st.sampled_from(WFILLS))
+          if w == "moving_variance" and f in ("const:-0.25", "one_hot"):
+            f = "zeros"      # a variance is never negative (one_hot draws any sign)
+          out.setdefault(ln, {})[w] = f
+    return out
+
+  return _s()
 
 
 def make_input(desc, batch=3):
@@ -197,8 +313,8 @@ def clean(desc):
     for spec in ld.get("q", {}).values():
       if isinstance(spec, dict):
         spec.pop("lossy", None)
-    if "inner" in ld:
-      strip(ld["inner"])
+    for sub in sub_descs(ld):
+      strip(sub)
   for ld in d["layers"]:
     strip(ld)
   return d
@@ -212,8 +328,8 @@ def lossy_items(desc):
     for slot, spec in sorted(ld.get("q", {}).items()):
       if isinstance(spec, dict) and spec.get("lossy"):
         out.append((ld["cls"], slot, spec["q"], sorted(spec["lossy"])))
-    if "inner" in ld:
-      walk(ld["inner"])
+    for sub in sub_descs(ld):
+      walk(sub)
   for ld in desc["layers"]:
     walk(ld)
   return out
@@ -225,8 +341,8 @@ def all_qspecs(desc):
   def walk(ld):
     for slot, spec in sorted(ld.get("q", {}).items()):
       out.append((ld, slot, spec))
-    if "inner" in ld:
-      walk(ld["inner"])
+    for sub in sub_descs(ld):
+      walk(sub)
   for ld in desc["layers"]:
     walk(ld)
   return out
@@ -879,6 +995,76 @@ class Gen(object):
           "kw": {"merge_mode": mm}, "q": {}, "inner": inner}
     return ld, oshape
 
+  # -- library classes nested in stock Keras wrapper layers (profile c13): the
+  # cell classes of the custom-object table are used through the generic
+  # tf.keras.layers.RNN layer (one cell or a stack of cells), quantized
+  # recurrent layers through the stock Bidirectional wrapper, and per-step
+  # layers through TimeDistributed.  All of them are serialized through the
+  # nested object's own get_config().
+  _CELL_KW = ("units", "use_bias", "reset_after", "unit_forget_bias",
+              "implementation")
+
+  def cell(self, c_in, cls=None, stock_ok=False):
+    """One cell description (library cell; in stacks rarely a stock cell)."""
+    if stock_ok and self.chance(5):
+      k = self.pick(["LSTMCell", "GRUCell", "SimpleRNNCell"])
+      return {"cls": k, "kw": {"units": self.i(1, 3)}, "q": {}}
+    ld, _ = self.l_rnn([1, c_in], "in", True, cls=cls, named=False)
+    kw = dict((k, v) for k, v in ld["kw"].items() if k in self._CELL_KW)
+    return {"cls": ld["cls"] + "Cell", "kw": kw, "q": ld["q"]}
+
+  def l_cellrnn(self, shape, src, return_sequences, named=True):
+    t, c = shape
+    n = 1 if not self.chance(3) else self.i(2, 3)
+    cells = []
+    for _ in range(n):
+      cd = self.cell(c, stock_ok=n > 1)
+      cells.append(cd)
+      c = cd["kw"]["units"]
+    kw = {"return_sequences": return_sequences}
+    if n == 1 and self.chance(4):
+      kw["as_list"] = True           # RNN([cell]): a stack of one
+    if self.chance(4):
+      kw["go_backwards"] = True
+    if self.chance(4):
+      kw["unroll"] = True
+    ld = {"name": self.name("RNN") if named else "inner_rnn", "cls": "RNN",
+          "in": [src], "kw": kw, "q": {}, "cells": cells}
+    return ld, ([t, c] if return_sequences else [c])
+
+  def l_stock_bidir(self, shape, src, return_sequences):
+    """Stock Keras Bidirectional around a quantized recurrent layer or around
+    RNN(quantized cell)."""
+    if self.b():
+      inner, oshape = self.l_rnn(shape, src, return_sequences, named=False)
+    else:
+      inner, oshape = self.l_cellrnn(shape, src, return_sequences, named=False)
+    inner["kw"].pop("go_backwards", None)
+    mm = self.pick(["concat", "sum", "mul", "ave"])
+    if mm == "concat":
+      oshape = oshape[:-1] + [oshape[-1] * 2]
+    name = self.name("Bidirectional")
+    inner["name"] = name + "_inner"
+    ld = {"name": name, "cls": "Bidirectional", "in": [src],
+          "kw": {"merge_mode": mm}, "q": {}, "inner": inner}
+    return ld, oshape
+
+  def l_timedist(self, shape, src):
+    """TimeDistributed(quantized layer) over the first non-batch axis."""
+    step = list(shape[1:])
+    if len(step) == 2:
+      k = self.pick(["conv1d", "sep1d", "dense"])
+    else:
+      k = self.pick(["dense", "dense", "act", "bn", "scaleshift"])
+    inner, osh = {"conv1d": self.l_qconv1d, "sep1d": self.l_qsepconv1d,
+                  "dense": self.l_qdense, "act": self.l_qact, "bn": self.l_qbn,
+                  "scaleshift": self.l_qscaleshift}[k](step, src)
+    name = self.name("TimeDistributed")
+    inner["name"] = name + "_inner"
+    ld = {"name": name, "cls": "TimeDistributed", "in": [src], "kw": {},
+          "q": {}, "inner": inner}
+    return ld, [shape[0]] + list(osh)
+
   KERAS_ACTS = ["hard_sigmoid", "sigmoid", "tanh", "relu", "softmax", "linear",
                 "hard_sigmoid"]
 
@@ -985,7 +1171,7 @@ def model_strategy(profile="c13", rich=False, family=None):
                   "dwfold", "scaleshift"]
         else:
           opts = ["conv", "conv", "dw", "sep", "bn", "act", "pool", "fold",
-                  "dwfold", "adaptive", "scaleshift", "stock", "stock"]
+                  "dwfold", "adaptive", "scaleshift", "stock", "stock", "td"]
         k = g.pick(opts)
         if k == "conv":
           ld, osh = g.l_qconv2d(sh, cur)
@@ -1007,6 +1193,8 @@ def model_strategy(profile="c13", rich=False, family=None):
           ld, osh = g.l_qadaptive(sh, cur)
         elif k == "scaleshift":
           ld, osh = g.l_qscaleshift(sh, cur)
+        elif k == "td":
+          ld, osh = g.l_timedist(sh, cur)
         else:
           ld, osh = g.l_stock(sh, cur)
         layers.append(ld)
@@ -1042,7 +1230,8 @@ def model_strategy(profile="c13", rich=False, family=None):
       for _ in range(nbody):
         sh = shapes[cur]
         k = g.pick(["conv1d", "sep1d", "rnn", "bidir", "bn", "act", "dense",
-                    "scaleshift"] + (["stock"] if profile == "c13" else []))
+                    "scaleshift"] + (["stock", "cellrnn", "cellrnn", "sbidir", "td"]
+                                     if profile == "c13" else []))
         if k == "conv1d":
           ld, osh = g.l_qconv1d(sh, cur)
         elif k == "sep1d":
@@ -1059,6 +1248,12 @@ def model_strategy(profile="c13", rich=False, family=None):
           ld, osh = g.l_qdense(sh, cur)
         elif k == "stock":
           ld, osh = g.l_stock(sh, cur)
+        elif k == "cellrnn":
+          ld, osh = g.l_cellrnn(sh, cur, True)
+        elif k == "sbidir":
+          ld, osh = g.l_stock_bidir(sh, cur, True)
+        elif k == "td":
+          ld, osh = g.l_timedist(sh, cur)
         else:
           ld, osh = g.l_qscaleshift(sh, cur)
         layers.append(ld)
@@ -1066,11 +1261,16 @@ def model_strategy(profile="c13", rich=False, family=None):
         prev = [l["name"] for l in layers[:-1]] + ["in"]
         cur = _merge(g, layers, shapes, ld["name"], prev)
       sh = shapes[cur]
-      k = g.pick(["rnn", "rnn", "bidir", "flatten"])
+      k = g.pick(["rnn", "rnn", "bidir", "flatten"] +
+                 (["cellrnn", "cellrnn", "sbidir"] if profile == "c13" else []))
       if k == "rnn":
         ld, osh = g.l_rnn(sh, cur, False)
       elif k == "bidir":
         ld, osh = g.l_qbidir(sh, cur, False)
+      elif k == "cellrnn":
+        ld, osh = g.l_cellrnn(sh, cur, False)
+      elif k == "sbidir":
+        ld, osh = g.l_stock_bidir(sh, cur, False)
       else:
         ld, osh = ({"name": g.name("Flatten"), "cls": "Flatten", "in": [cur],
                     "kw": {}, "q": {}}, [sh[0] * sh[1]])
@@ -1422,6 +1622,61 @@ def canonical_models(profile):
          {"__inner__": {"cls": "QSimpleRNN", "in": ["in"],
                         "kw": {"units": 2, "use_bias": True, "return_sequences": False},
                         "q": rq}})], "seq", 7))
+    # library classes nested in stock Keras wrappers: every cell class of the
+    # custom-object table in the generic RNN layer (alone, as a stack of one,
+    # in a mixed stack), the stock Bidirectional around a quantized layer and
+    # around RNN(cell), TimeDistributed around per-step layers.  The four
+    # quantizers of a cell are pairwise different in their step size.
+    def cq(k):
+      return {"kernel_quantizer": _qb(4 + k, 0, 1.0),
+              "recurrent_quantizer": _qb(5, 1 + k, 1.0),
+              "bias_quantizer": po2 if k else _qb(3, 0, 1.0),
+              "state_quantizer": _qb(6 - k, 0, 1.0),
+              "activation": {"s": "quantized_tanh(%d)" % (4 + k)}}
+    def cqr(k):
+      return dict(cq(k), recurrent_activation={"s": "quantized_sigmoid(%d)" % (4 + k)})
+    lstm_c = {"cls": "QLSTMCell", "kw": {"units": 3, "use_bias": True,
+                                         "unit_forget_bias": False}, "q": cqr(0)}
+    gru_c = {"cls": "QGRUCell", "kw": {"units": 2, "use_bias": True,
+                                       "reset_after": True}, "q": cqr(1)}
+    srnn_c = {"cls": "QSimpleRNNCell", "kw": {"units": 2, "use_bias": True},
+              "q": cq(2)}
+    nostate = dict(cqr(1), state_quantizer=None)
+    norec = dict(cqr(0), recurrent_quantizer=None)
+    # parallel branches (each observed on its own), concatenated
+    def cat(d):
+      d["layers"].append({"name": "cat", "cls": "Concatenate",
+                          "in": [l["name"] for l in d["layers"]], "kw": {}, "q": {}})
+      d["out"] = "cat"
+      return d
+    d = _desc([4, 2], [
+        ("RNN", {"__in__": ["in"], "return_sequences": True}, {}),
+        ("RNN", {"__in__": ["in"], "return_sequences": True, "go_backwards": True}, {}),
+        ("RNN", {"__in__": ["in"], "return_sequences": True, "as_list": True}, {}),
+        ("RNN", {"__in__": ["in"], "return_sequences": True, "unroll": True}, {})],
+              "seq", 23)
+    d["layers"][0]["cells"] = [lstm_c]
+    d["layers"][1]["cells"] = [gru_c]
+    d["layers"][2]["cells"] = [srnn_c]
+    d["layers"][3]["cells"] = [
+        {"cls": "QGRUCell", "kw": {"units": 3, "use_bias": False}, "q": nostate},
+        {"cls": "LSTMCell", "kw": {"units": 2}, "q": {}},
+        {"cls": "QLSTMCell", "kw": {"units": 2, "use_bias": True,
+                                    "implementation": 2}, "q": norec}]
+    ms.append(cat(d))
+    ms.append(cat(_desc([3, 2], [
+        ("Bidirectional", {"__in__": ["in"], "merge_mode": "ave"},
+         {"__inner__": {"cls": "QLSTM", "in": ["in"],
+                        "kw": {"units": 2, "use_bias": True, "return_sequences": True},
+                        "q": cqr(0)}}),
+        ("TimeDistributed", {"__in__": ["in"]},
+         {"__inner__": {"cls": "QDense", "in": ["in"],
+                        "kw": {"units": 3, "use_bias": True},
+                        "q": {"kernel_quantizer": auto, "bias_quantizer": po2,
+                              "activation": relu}}}),
+        ("Bidirectional", {"__in__": ["in"], "merge_mode": "concat"},
+         {"__inner__": {"cls": "RNN", "in": ["in"], "kw": {"return_sequences": True},
+                        "q": {}, "cells": [gru_c]}})], "seq", 24)))
     ms.append(_desc([4], [
         ("QDense", {"units": 3, "use_bias": True},
          {"kernel_quantizer": binr, "bias_quantizer": tern,
@@ -1596,6 +1851,24 @@ def canonical_models(profile):
         ("QDense", {"units": 3, "use_bias": True},
          {"kernel_quantizer": {"q": "binary", "kw": {"alpha": 1.0, "use_01": True}},
           "bias_quantizer": fx, "activation": None})], "vec", 17))
+    # two fusable pairs whose batch-norm quantizers do not map 0 to 0 (library
+    # default power-of-two quantizers; binary beta): used with untrained /
+    # zero-start parameters by C14
+    ms.append(_desc([5, 5, 2], [
+        ("QDepthwiseConv2D", {"kernel_size": [2, 2], "strides": [1, 1],
+                              "padding": "valid", "depth_multiplier": 1,
+                              "use_bias": True, "dilation_rate": [1, 1]},
+         {"depthwise_quantizer": _qb(4, 0, 1.0), "bias_quantizer": _qb(6, 1, 1.0),
+          "activation": None}),
+        ("QBatchNormalization", {}, {}),
+        ("QConv2D", {"filters": 2, "kernel_size": [2, 2], "strides": [1, 1],
+                     "padding": "valid", "dilation_rate": [1, 1], "use_bias": False},
+         {"kernel_quantizer": po2, "bias_quantizer": None, "activation": None}),
+        ("QBatchNormalization", {},
+         {"gamma_quantizer": fx, "beta_quantizer": binr,
+          "mean_quantizer": {"q": "quantized_po2", "kw": {"bits": 4}},
+          "variance_quantizer": None}),
+        fl], "image", 23))
     ms.append(_desc([4], [
         ("QDense", {"units": 3, "use_bias": True},
          {"kernel_quantizer": binr, "bias_quantizer": tern, "activation": relu}),
